@@ -5,7 +5,8 @@ KEY = {'KF-C19-1': 'hybrid36.decode rejects', 'KF-C20-1': 'rotate_vector_around_
        'KF-C01-2': 'identify residues by chain', 'KF-C08-1': 'average each group', 'KF-C10-1': 'make_grid',
        'KF-C10-2': 'window prints', 'KF-C05-1': 'closest-pair search', 'KF-C02-1': 'recompute total pKa after sharing', 'KF-C03-1': 'iterate coupled systems in list order', 'KF-C01-5': 'forget the previous C-terminal residue', 'KF-C04-2': 'COO-ARG hydrogen bond no longer depends',
        'KF-C08-2': 'keep residues that differ only in insertion code apart',
-       'KF-C10-3': 'window keeps its end points'}
+       'KF-C10-3': 'window keeps its end points',
+       'KF-C08-3': 'only through completion are listed'}
 log = subprocess.run(['git', '-C', '/repo', 'log', '--format=%h %s'], capture_output=True, text=True).stdout.splitlines()
 d = json.load(open('/verif/known_findings.json'))
 for e in d['findings']:
